@@ -66,9 +66,34 @@ pub fn casey_word(t: &mut Tape) -> String {
     w
 }
 
+/// long tokens: words, numerals, strings and comments of 25-90 characters (fixed-size buffers, truncation of quoted
+/// tokens in messages), in ASCII and in 2-, 3- and 4-byte letters so that any byte offset may fall inside a character
+pub fn long_fragment(t: &mut Tape) -> String {
+    let n = 25 + t.pick(66);
+    let alphabet: &[&str] = match t.pick(5) {
+        0 | 1 => &["a", "b", "R", "o", "c", "k", "s", "t", "r"],
+        2 => &["д", "р", "у", "з", "ь", "я", "Ж", "α", "λ", "é"],
+        3 => &["名", "前", "ア", "€", "a"],
+        _ => &["a", "é", "я", "名", "🎸", "x", "ü"],
+    };
+    let mut body = String::new();
+    for _ in 0..n {
+        body.push_str(*t.choose(alphabet));
+    }
+    match t.pick(9) {
+        0 | 1 | 2 => body,
+        3 => format!("\"{}\"", body),
+        4 => format!("\"{}", body),
+        5 => format!("({})", body),
+        6 => format!("({}", body),
+        7 => format!("{}'s", body),
+        _ => (0..n).map(|_| (b'0' + t.pick(10) as u8) as char).collect(),
+    }
+}
+
 pub fn fragment(t: &mut Tape) -> String {
     let all_kw = kw::all_aliases();
-    match t.weighted(&[30, 14, 8, 4, 10, 6, 6, 10, 4, 3, 2, 2, 3, 3]) {
+    match t.weighted(&[30, 14, 8, 4, 10, 6, 6, 10, 4, 3, 2, 2, 3, 3, 3]) {
         0 => recase(all_kw[t.pick(all_kw.len())], t),
         1 => t.choose(WORDS).to_string(),
         2 => t.choose(NUMBERS).to_string(),
@@ -82,7 +107,8 @@ pub fn fragment(t: &mut Tape) -> String {
         10 => t.choose(NUMERIC_NONASCII).to_string(),
         11 => t.choose(ODD).to_string(),
         12 => t.choose(SUFFIXY).to_string(),
-        _ => casey_word(t),
+        13 => casey_word(t),
+        _ => long_fragment(t),
     }
 }
 
